@@ -112,6 +112,13 @@ def run_workers(prop, tier, seed, jobs, mode, timeout_s, extra_env=None):
     os.makedirs(workdir, exist_ok=True)
     procs = []
     env = dict(os.environ)
+    # 16 worker processes x 16 OpenMP threads would oversubscribe the machine: monitors other than the
+    # schedule sweep (C19) keep the parallel code path alive with 2 threads per worker.
+    mon = find_monitor(prop)
+    env.setdefault("NUMBA_NUM_THREADS", str(getattr(mon, "NUMBA_THREADS", 2)))
+    env.setdefault("OMP_WAIT_POLICY", "passive")
+    env.setdefault("OMP_NUM_THREADS", env["NUMBA_NUM_THREADS"])
+    env.setdefault("OPENBLAS_NUM_THREADS", "1")
     if extra_env:
         env.update(extra_env)
     for shard in range(jobs):
